@@ -103,6 +103,33 @@ Proof.
       * intros _. exists pre, p, post; auto.
 Qed.
 
+(* what load_config sees of the search: the escaping PermissionError has become a ConfigError *)
+Theorem find_project_checked_spec chain :
+  (forall p r, find_project_checked chain = Ok (Some (p, r)) <->
+     exists pre post, chain = pre ++ p :: post /\ Forall notfile pre /\ is_file (pl_entry p) = IsYes r) /\
+  (find_project_checked chain = Ok None <-> Forall notfile chain) /\
+  (find_project_checked chain = ConfigErr <->
+     exists pre p post, chain = pre ++ p :: post /\ Forall notfile pre /\ is_file (pl_entry p) = IsErr) /\
+  find_project_checked chain <> Crash.
+Proof.
+  destruct (find_project_spec chain) as [Hhit [Hnone [Hcrash Hne]]]. unfold find_project_checked.
+  destruct (find_project chain) as [o| |] eqn:E.
+  - repeat split; try congruence.
+    + intro H. apply Hhit. exact H.
+    + intro H. apply Hhit in H. exact H.
+    + intro H. apply Hnone. exact H.
+    + intro H. apply Hnone in H. exact H.
+    + intro H. apply Hcrash in H. discriminate.
+  - congruence.
+  - repeat split; try congruence.
+    + intro H. apply Hhit in H. discriminate.
+    + intro H. apply Hnone in H. discriminate.
+    + intros _. apply Hcrash. reflexivity.
+Qed.
+Lemma find_project_checked_skip pre chain : Forall notfile pre ->
+  find_project_checked (pre ++ chain) = find_project_checked chain.
+Proof. intro H. unfold find_project_checked. rewrite find_project_skip by assumption. reflexivity. Qed.
+
 (* the search function and the "nearest level" spec function agree *)
 Lemma find_project_nearest chain :
   find_project chain =
@@ -149,7 +176,7 @@ Section Load.
   Lemma load_project_eff lay c :
     load_project parse lay c = bind (eff_project (l_chain lay)) (fun l => Ok (cadd c l s_project)).
   Proof.
-    unfold load_project, eff_project. rewrite find_project_nearest.
+    unfold load_project, eff_project, find_project_checked. rewrite find_project_nearest.
     destruct (nearest (l_chain lay)) as [p|]; [|reflexivity].
     unfold eff_at. destruct (is_file (pl_entry p)); [apply add_layer_text|reflexivity|reflexivity].
   Qed.
